@@ -5,13 +5,14 @@ EXTENDS HttpSess
 
 \* `res`, `ranNow` are outputs of the last step and `bad` is a ghost: hidden in the cover graph so
 \* that its nodes are the states of the session table proper
-CoverView == <<tab, nmint, slot, parked>>
+CoverView == <<tab, nmint, slot>>
+MCView == <<tab, nmint, slot, tiewin, bad>>
 
 \* reachability witnesses (each must be VIOLATED, otherwise the model is vacuous)
-NeverTimedOut   == ~(\E i \in Ids : tab[i].st = "dead" /\ res = <<>> /\ ranNow = 0 /\ parked = <<>>)
+NeverTimedOut   == ~(\E i \in Ids : tab[i].st = "dead" /\ res = <<>> /\ ranNow = 0)
 NeverClosing    == \A i \in Ids : tab[i].st # "closing"
 NeverTieAdmit   == \A p \in Slots : ~slot[p].tie
-NeverParked     == parked = <<>>
+NeverParked     == \A i \in Ids : tab[i].pdel = 0 /\ tab[i].phung = 0
 NeverForeign    == \A c \in Range(res) : c.cls # "foreign"
 NeverStale      == \A c \in Range(res) : c.cls # "stale"
 NeverCbClosing  == ~(\E i \in Ids : tab[i].st = "closing" /\ \E p \in Slots : slot[p].id = i /\ slot[p].tie)
@@ -22,11 +23,16 @@ gvars == <<vars, hist>>
 H(s) == hist' = Append(hist, s)
 TgtStr(t) == ToString(t)
 GenInit == Init /\ hist = <<>>
+\* (simulation picks uniformly among the enabled steps: requests with an id the server never issued
+\* are thinned out so that random walks spend their steps on sessions that exist)
 GenNext ==
   \/ \E b \in Bodies, t \in Targets, u \in Users :
-        (t \in {NoId, Unknown} \/ t \in Minted) /\ Post(b, t, u) /\ H(<<"Post", b, t, u>>)
-  \/ \E t \in Targets, u \in Users : (t \in {NoId, Unknown} \/ t \in Minted) /\ Get(t, u) /\ H(<<"Get", "", t, u>>)
-  \/ \E t \in Targets, u \in Users : (t \in {NoId, Unknown} \/ t \in Minted) /\ Delete(t, u) /\ H(<<"Delete", "", t, u>>)
+        /\ (t = NoId \/ (t = Unknown /\ b = "call" /\ u = "A") \/ t \in Minted)
+        /\ Post(b, t, u) /\ H(<<"Post", b, t, u>>)
+  \/ \E t \in Targets, u \in Users :
+        (t = NoId \/ (t = Unknown /\ u = "B") \/ t \in Minted) /\ Get(t, u) /\ H(<<"Get", "", t, u>>)
+  \/ \E t \in Targets, u \in Users :
+        (t = NoId \/ (t = Unknown /\ u = "none") \/ t \in Minted) /\ Delete(t, u) /\ H(<<"Delete", "", t, u>>)
   \/ \E p \in Slots : EndPost(p) /\ H(<<"EndPost", "", p, "">>)
   \/ \E i \in Ids : Close(i) /\ H(<<"Close", "", i, "">>)
   \/ \E d \in AdvSet : Advance(d) /\ H(<<"Advance", "", d, "">>)
@@ -35,7 +41,41 @@ GenNext ==
   \/ \E i \in Ids : TimeoutCallback(i) /\ UNCHANGED hist
 GenSpec == GenInit /\ [][GenNext]_gvars
 
-\* the same module serves exhaustive checking and the cover graph: hist stays empty there
-MCSpec == GenInit /\ [][Next /\ UNCHANGED hist]_gvars
-MCCoverSpec == GenInit /\ [][HarnessNext /\ UNCHANGED hist]_gvars
+\* the same module serves exhaustive checking and the cover graph: hist stays empty there.  The
+\* wrappers give TLC one named action per step, which is what `-dump dot,actionlabels` prints.
+Addressable(t) == t \in {NoId, Unknown} \/ t \in Minted
+PostH(b, t, u) == Addressable(t) /\ Post(b, t, u) /\ UNCHANGED hist
+GetH(t, u) == Addressable(t) /\ Get(t, u) /\ UNCHANGED hist
+DeleteH(t, u) == Addressable(t) /\ Delete(t, u) /\ UNCHANGED hist
+EndPostH(p) == EndPost(p) /\ UNCHANGED hist
+CloseH(i) == Close(i) /\ UNCHANGED hist
+AdvanceH(d) == Advance(d) /\ UNCHANGED hist
+AdvanceTieH(d) == AdvanceTie(d) /\ UNCHANGED hist
+TimerFireH(i) == TimerFire(i) /\ UNCHANGED hist
+TimeoutCallbackH(i) == TimeoutCallback(i) /\ UNCHANGED hist
+\* reductions of the cover graph only (the exhaustive configurations keep everything): users A and B
+\* are interchangeable until A owns a session; a repeated initialize is sent well-formed only
+CanonUser(u) == u # "B" \/ \E i \in Ids : tab[i].owner = "A"
+PostC(b, t, u) == CanonUser(u) /\ (b = "badinit" => t = NoId) /\ PostH(b, t, u)
+GetC(t, u) == CanonUser(u) /\ GetH(t, u)
+DeleteC(t, u) == CanonUser(u) /\ DeleteH(t, u)
+MCCoverNext ==
+  \/ \E b \in Bodies, t \in Targets, u \in Users : PostC(b, t, u)
+  \/ \E t \in Targets, u \in Users : GetC(t, u)
+  \/ \E t \in Targets, u \in Users : DeleteC(t, u)
+  \/ \E p \in Slots : EndPostH(p)
+  \/ \E i \in Ids : CloseH(i)
+  \/ \E d \in AdvSet : AdvanceH(d)
+MCNext ==
+  \/ \E b \in Bodies, t \in Targets, u \in Users : PostH(b, t, u)
+  \/ \E t \in Targets, u \in Users : GetH(t, u)
+  \/ \E t \in Targets, u \in Users : DeleteH(t, u)
+  \/ \E p \in Slots : EndPostH(p)
+  \/ \E i \in Ids : CloseH(i)
+  \/ \E d \in AdvSet : AdvanceH(d)
+  \/ \E d \in AdvSet : AdvanceTieH(d)
+  \/ \E i \in Ids : TimerFireH(i)
+  \/ \E i \in Ids : TimeoutCallbackH(i)
+MCSpec == GenInit /\ [][MCNext]_gvars
+MCCoverSpec == GenInit /\ [][MCCoverNext]_gvars
 =============================================================================
